@@ -54,6 +54,22 @@ pub fn run(ctx: &mut Ctx) {
             continue;
         }
         done += 1;
+        // one unsealed request in three: the padding bytes (which a receiver ignores) are not zero
+        {
+            let rp0 = ref_parse(&buf);
+            if done % 3 == 0 && !rp0.attrs.iter().any(|a| a.ty == MI || a.ty == MI256 || a.ty == FP) {
+                let mut touched = false;
+                for a in &rp0.attrs {
+                    for k in a.off + 4 + a.len..a.padded_end().min(buf.len()) {
+                        buf[k] = *rng.pick(&[0x20u8, 0xff, 0x01, 0x80]);
+                        touched = true;
+                    }
+                }
+                if touched && ref_parse(&buf).accepted() {
+                    ctx.count("requests-with-non-zero-padding");
+                }
+            }
+        }
         let rp = ref_parse(&buf);
         let o = Opts::default();
         let msg = match guard(|| Message::from_bytes(&buf)) {
@@ -125,6 +141,15 @@ pub fn run(ctx: &mut Ctx) {
             check_policing(ctx, &buf, &msg, &rp, &exposed_ref, &present, &[], &o);
             check_policing(ctx, &buf, &msg, &rp, &exposed_ref, &[], &[0x7f77], &o);
             ctx.eval();
+        }
+        // every kind of absent type required on its own (sealing types, the types that usually come
+        // with credentials, the extremes), everything present supported: 400 unless a 420 is due
+        for t in [MI, MI256, FP, 0x0006u16, 0x0014, 0x0015, 0x001e, 0x8022, 0x0000, 0x7fff, 0x8000, 0xffff] {
+            if !present.contains(&t) {
+                check_policing(ctx, &buf, &msg, &rp, &exposed_ref, &present, &[t], &o);
+                ctx.eval();
+                ctx.count("absent-type-required-alone");
+            }
         }
         // duplicates in the lists themselves, and MI / FP named explicitly
         for (sup, req) in [
